@@ -244,6 +244,15 @@ def run(tier, seed, replay=None):
             for d in ((40, 150) if kind in nested else ((50, 300) if tier == 'quick' else (50, 300, 800))):
                 laid.append(('nesting:%s:%d' % (kind, d), 'one-line', 'Main', texts.deep_nesting(kind, d)))
                 laid.append(('nesting:%s:%d' % (kind, d), 'longline', 'Main', texts.hostile_layout(lrng, texts.deep_nesting(kind, d), 'longline')))
+    if not replay:
+        # valid modules whose imports were dropped: unresolved classes, quick fixes with edit ranges
+        for name, mname, text in mods:
+            if 'import ' in text and len(text) < 6000:
+                body = '\n'.join(l for l in text.split('\n') if not l.startswith('import '))
+                laid.append(('noimport:' + name, 'as-is', mname, body))
+                t = texts.hostile_layout(lrng, body, lrng.pick(texts.LAYOUTS))
+                if t is not None:
+                    laid.append(('noimport:' + name, 'relaid', mname, t))
     if os.path.isdir(CORPUS):
         for fn in sorted(os.listdir(CORPUS)):
             if fn.endswith('.sam'):
@@ -313,11 +322,11 @@ def run(tier, seed, replay=None):
                 except ValueError:
                     continue
                 res[v['id']] = v
-    tot = {'nodes': 0, 'ids': 0, 'diagnostics': 0, 'definitions': 0, 'references': 0, 'folding': 0}
+    tot = {'nodes': 0, 'ids': 0, 'diagnostics': 0, 'definitions': 0, 'references': 0, 'folding': 0, 'edits': 0}
     for j in jobs:
         v = res.get(j['id'])
         is_mut = j['id'] >= mut_base
-        label = 'mutant' if is_mut else '%s/%s' % (laid[j['id']][0].split(':')[0] if laid[j['id']][0].startswith(('nesting', 'corpus')) else ('gen' if laid[j['id']][0].startswith('gen-') else 'sample'), laid[j['id']][1])
+        label = 'mutant' if is_mut else '%s/%s' % (laid[j['id']][0].split(':')[0] if laid[j['id']][0].startswith(('nesting', 'corpus', 'noimport')) else ('gen' if laid[j['id']][0].startswith('gen-') else 'sample'), laid[j['id']][1])
         ck.count('C:' + label)
         if v is None:
             ck.property_failure('ast-locs produced no result (harness died)', {'sources': {k: t[:2000] for k, t in j['sources'].items()}})
@@ -326,7 +335,7 @@ def run(tier, seed, replay=None):
         tot['nodes'] += v.get('nodes', 0)
         tot['ids'] += v.get('ids', 0)
         tot['diagnostics'] += v.get('parser_diagnostics', 0)
-        for k in ('definitions', 'references', 'folding'):
+        for k in ('definitions', 'references', 'folding', 'edits'):
             tot[k] += (v.get('services') or {}).get(k, 0)
         tot['diagnostics'] += (v.get('services') or {}).get('diagnostics', 0)
         if not is_mut and v.get('syntax_errors', 0) > 0 and not laid[j['id']][0].startswith('corpus'):
@@ -342,7 +351,7 @@ def run(tier, seed, replay=None):
             ck.property_failure('%s: %s' % (label, x['what']), {'sources': src}, expected='location invariants of C14', observed=x, how='vh lex-run ast-locs')
             break
     ck.extra_cov.update({'ast_nodes_checked': tot['nodes'], 'identifier_spellings_checked': tot['ids'], 'diagnostic_locations_checked': tot['diagnostics'],
-                         'definition_results_checked': tot['definitions'], 'reference_results_checked': tot['references'], 'folding_ranges_checked': tot['folding']})
+                         'definition_results_checked': tot['definitions'], 'reference_results_checked': tot['references'], 'folding_ranges_checked': tot['folding'], 'edit_ranges_checked': tot['edits']})
     ck.rule = ('B: loc.rs: all 1296^2 ordered pairs of locations (well formed or not) over the 6x6 position grid + all 1296x36 '
                'contains_position cases (extracted model), the 3x3 grid again inside coqc, random cases with coordinates up to 3000; lexer: '
                'token kinds/positions/bytes vs the lexer model on re-laid-out modules. C: tests/*.sam, std/*.sam and generated well-typed '
@@ -350,5 +359,6 @@ def run(tier, seed, replay=None):
                'tokens, long lines, mixed), nested/long one-line modules; for every AST node: inside the document, start <= end, encloses its '
                'children, siblings disjoint and in source order, identifier/keyword-type/literal locations spell their text (byte columns); '
                'parser and checker diagnostics and their reference locations inside their document; definition_location and all_references '
-               'at every identifier, folding_ranges nest or are disjoint; diagnostics of token/tree mutants inside the document.')
+               'at every identifier, folding_ranges nest or are disjoint; edit ranges of the quick fixes (code_actions) offered for modules '
+               'with their imports removed; diagnostics of token/tree mutants inside the document.')
     return ck.finish()
